@@ -44,6 +44,8 @@ def plan(tier, seed):
         t += wp.enum_tasks(5, 64, 1, 3, seed)
         t += wp.member_tasks(5, 10, 16, seed, plain_graph_every=7)
         t += wp.member_tasks(6, 20, 96, seed, plain_graph_every=7)
+    for n, cnt in ((4, 16), (5, 16), (6, 32)):
+        t += wp.neighbour_tasks(n, cnt if tier == "quick" else cnt * 12, 16, seed, per_anchor=36 if tier == "quick" else 80)
     random.Random(seed).shuffle(t)
     return t
 
